@@ -287,6 +287,25 @@ pub fn run(opts: &Opts) -> i32 {
     ].iter().enumerate() {
         inputs.push((format!("regression:{k}"), text.to_string()));
     }
+    // canonical text whose only irregularity is at the end or the start of the file: no final
+    // newline, several, trailing spaces, leading blank lines (C14: exactly one final newline,
+    // `fmt --check` and `fmt` agree on such a file)
+    for (k, (p, t)) in corpus.iter().enumerate() {
+        if t.len() > 4000 || !(opts.thorough() || k % 3 == 0) {
+            continue;
+        }
+        if let Ok(Formatted::Ok(out)) = crate::common::catch(|| fmt::format(t)) {
+            if !matches!(crate::common::catch(|| fmt::format(&out)), Ok(Formatted::Ok(ref again)) if *again == out) {
+                continue;
+            }
+            let bare = out.trim_end_matches('\n').to_string();
+            for (j, v) in [bare.clone(), format!("{bare}\n\n"), format!("{bare}\n\n\n\n"), format!("{bare}  "), format!("{bare} \n"), format!("\n\n{out}"), format!("{bare}\n \n")].into_iter().enumerate() {
+                if opts.thorough() || j == (k + rng.below(3) as usize) % 7 || j == 0 {
+                    inputs.push((format!("eof:{}#{j}", p.display()), v));
+                }
+            }
+        }
+    }
     // unparseable inputs (C12): the file must be left as it is
     for (k, (p, t)) in corpus.iter().enumerate() {
         if !(opts.thorough() || k % 4 == 0) {
